@@ -114,6 +114,15 @@ def run_case(case):
             else:
                 ds = q.CSVDailyBarDataSource(path, q.Equity, adjust_prices=adjust, csv_symbols=list(syms))
             dh = q.BacktestDataHandler(None, data_sources=[ds])
+            if case.get('naive_first'):
+                # the handler first receives a malformed request (a timestamp without a time zone); whatever it
+                # answers or raises, the valid requests that follow are answered as usual
+                for name in syms:
+                    try:
+                        dh.get_asset_latest_bid_price(pd.Timestamp(queries[0].year, queries[0].month, queries[0].day, 15, 0), 'EQ:' + name)
+                    except Exception:                             # noqa
+                        pass
+                cls.add('naive_timestamp_request_first')
             for name, rows in syms.items():
                 a = 'EQ:' + name
                 obs = observations(rows, adjust)
@@ -287,6 +296,29 @@ def cases(draw):
             random.Random(seed).shuffle(rows)
         syms[n] = rows
         span = max(span, off + nd)
+    if len(names) == 2 and len(syms[names[0]]) >= 4 and draw(st.sampled_from([False, False, True])):
+        # the second symbol trades as many days as the first, from the same first to the same last date - but not
+        # on the same days in between
+        base = sorted(syms[names[0]], key=lambda r: (r[0], r[1], r[2]))
+        have = set((r[0], r[1], r[2]) for r in base)
+        k = draw(st.integers(1, len(base) - 2))
+        lo_, hi_ = D.date(*base[0][:3]), D.date(*base[-1][:3])
+        free = [lo_ + D.timedelta(days=i) for i in range(1, (hi_ - lo_).days)
+                if ((lo_ + D.timedelta(days=i)).year, (lo_ + D.timedelta(days=i)).month, (lo_ + D.timedelta(days=i)).day) not in have]
+        if free:
+            nd_ = draw(st.sampled_from(free))
+            twin = [list(r) for r in market.build_rows(seed + 99, lo_, (hi_ - lo_).days + 1, weekend_rows=True)]
+            px = {(r[0], r[1], r[2]): r[3:] for r in twin}
+            rows2 = []
+            for i_, r in enumerate(base):
+                dkey = (nd_.year, nd_.month, nd_.day) if i_ == k else (r[0], r[1], r[2])
+                vals = px.get(dkey) or [round(x * 1.7, 4) if x is not None else None for x in r[3:]]
+                rows2.append(list(dkey) + list(vals))
+            rows2.sort(key=lambda r: (r[0], r[1], r[2]))
+            if 'shuffled' in flags:
+                random.Random(seed + 5).shuffle(rows2)
+            syms[names[1]] = rows2
+            flags.append('same_span_and_count_other_days')
     if len(names) == 2 and syms[names[0]] and syms[names[1]] and \
             market.first_date(syms[names[0]]) != market.first_date(syms[names[1]]):
         flags.append('different_first_dates')
@@ -308,8 +340,9 @@ def cases(draw):
     cut = draw(st.sampled_from(qs))
     return {'symbols': syms, 'queries': qs, 'cut': cut, 'cut_mode': draw(st.sampled_from(['rewrite', 'delete', 'mix'])),
             'cut_seed': draw(st.integers(0, 1000)), 'cut_adjust': draw(st.booleans()), 'flags': flags,
-            'interleave': draw(st.lists(st.tuples(st.integers(0, 1), st.integers(0, 24), st.sampled_from([0, 1, 7, 3600])).map(list),
+            'interleave': draw(st.lists(st.tuples(st.integers(0, 1), st.integers(0, 24), st.sampled_from([0, 1, 7, 3600, -0.000001, 0.000001, 0.25, -0.5])).map(list),
                                         min_size=6, max_size=20)) if draw(st.booleans()) else [],
+            'naive_first': draw(st.sampled_from([False, False, True])),
             'all_files': draw(st.sampled_from([False, False, True])), 'session_built': draw(st.sampled_from([False, False, True])),
             'zones': draw(st.lists(st.sampled_from([None, None, 'Europe/Berlin', 'America/New_York', 'Asia/Tokyo']), min_size=1, max_size=5))}
 
